@@ -117,9 +117,8 @@ def run(chk):
     chk.check(len(rets) == 1 and unparse(rets[0].value) == '(psort, starts, wsort)', 'C17-R6', TSC, Q, 'returns (psort, starts, wsort)', '',
               f'returns {[unparse(r.value) for r in rets]}', node=rets[0] if rets else fn)
     # ---- R7 bounds
-    k = analyse(src, TSC, Q, CONTRACTS)
-    for a in k.accesses.values():
-        chk.add('C17-R7', TSC, Q, a.key, a.verdict, a.detail, line=a.line, witness=a.witness)
+    from ..core.kernels import add_bounds_obligations
+    add_bounds_obligations(chk, 'C17-R7', TSC, Q, CONTRACTS)
 
 
 def _idx(sub):
